@@ -353,6 +353,13 @@ def _check_onelabel(ctx, repo) -> None:
     lti_f = repo.function("abtem.core.utils", "label_to_index")
     lb = bind_args(lt, lti_f)
     labels = _inline(df, lnode.idx, lb.get("labels")) if lb.get("labels") is not None else None
+    for _ in range(4):  # value-preserving wrappers
+        if isinstance(labels, ast.Call) and last_attr(labels) in ("astype", "copy", "ravel", "flatten") and \
+                isinstance(labels.func, ast.Attribute):
+            labels = _inline(df, lnode.idx, labels.func.value)
+        elif isinstance(labels, ast.Call) and call_name(labels) in ("np.asarray", "np.array", "np.ascontiguousarray") \
+                and labels.args:
+            labels = _inline(df, lnode.idx, labels.args[0])
     ctx.check(labels is dg, rule, construct + ":labels", init.loc(lt),
               "label_to_index receives the digitize result itself",
               f"label_to_index is applied to {norm_text(lb.get('labels')) if lb.get('labels') is not None else '?'}, "
@@ -367,9 +374,15 @@ def _check_onelabel(ctx, repo) -> None:
         full = isinstance(rows, ast.Slice) and rows.lower is None and rows.upper is None and rows.step is None
         zcol = isinstance(col, ast.Constant) and col.value in (2, -1)
         base = inl.expand(x.value)
-        src = dotted(base)
-        is_pos = src in ("self._atoms.positions", "atoms.positions")
-        ok_all = full and zcol and is_pos
+        if isinstance(base, ast.Call) and last_attr(base) == "get_positions" and isinstance(base.func, ast.Attribute) \
+                and not base.args:
+            src = (dotted(base.func.value) or "?") + ".positions"
+        else:
+            src = dotted(base)
+        if src not in ("self._atoms.positions", "atoms.positions"):
+            raise AnalysisError(f"{init.qualname}: np.digitize runs over `{norm_text(x)[:60]}`, which the analyser "
+                                "cannot relate to the positions of the sliced atoms")
+        ok_all = full and zcol
         why = (f"rows={'all' if full else norm_text(rows)}, column={norm_text(col)}, source={src}")
     elif isinstance(x, ast.Call) or isinstance(x, ast.Subscript):
         base = inl.expand(x)
